@@ -1649,12 +1649,21 @@ pub async fn fetch_registry(network: &Network) -> Result<RegistryFile, FetchRegi
 pub fn user_info_map(imports: &ImportsFile) -> FastMap<CratesUserId, CratesCacheUser> {
     let mut user_info = FastMap::new();
     for publisher in imports.publisher.values().flatten() {
+        let info = CratesCacheUser {
+            login: publisher.user_login.clone(),
+            name: publisher.user_name.clone(),
+        };
+        // If the cached records disagree about a user (e.g. they were renamed
+        // between two runs), pick one independently of the order of the
+        // entries, so that re-writing a file we just read gives the same bytes.
         user_info
             .entry(publisher.user_id)
-            .or_insert_with(|| CratesCacheUser {
-                login: publisher.user_login.clone(),
-                name: publisher.user_name.clone(),
-            });
+            .and_modify(|existing: &mut CratesCacheUser| {
+                if (&info.login, &info.name) < (&existing.login, &existing.name) {
+                    *existing = info.clone();
+                }
+            })
+            .or_insert(info);
     }
     user_info
 }
